@@ -72,6 +72,10 @@ def names(ctx: Ctx):
     for f in alph.values():
         for n in lens:
             out.append([f(k) for k in range(n)])
+    # names that are not in Unicode normal form C (the caller's text is what must be sent, code point for code point)
+    out += [[67, 97, 102, 101, 0x301], [0x65, 0x301] * 10 + [97], [0x65, 0x301] * 11, [0xFB2A] * 10 + [97, 98], [0xFB2A] * 11,
+            [0x5E9, 0x5C1, 0x5B8, 0x5DC], [0x5E9, 0x5B8, 0x5C1, 0x5DC], [0x41, 0x30A, 0x212B, 0xC5], [0x1E9B, 0x323], [0x3A9, 0x2126],
+            [0xAC00, 0x1100, 0x1161], [32, 97, 98, 32], [9, 97, 98], [97, 98, 10], [0xA0, 97, 98, 0xA0], [0x2003, 0x2003]]
     return out
 
 
@@ -112,8 +116,12 @@ def t0_any(rng):
     return rng.choice([1.0, 255.5, 65535.75, 1790000000.25, 2147483647.5, 2147483648.0, 4294967294.25, float(rng.randrange(1, 4294967295)) + rng.random()])
 
 
+SECOND_OFFSETS = [0.0, 0.25, 0.5, 0.99, 29.7, 58.4, 59.2, 59.5, 59.75, 59.99]
+
+
 def t0_pre2038(rng):
-    return float(rng.choice([1700000000, 1790553600, 1774569600 + 3600 * 11, rng.randrange(1600000000, 2140000000)])) + rng.choice([0.0, 0.25, 0.5, 0.99])
+    base = rng.choice([1700000000, 1790553600, 1774569600 + 3600 * 11, rng.randrange(1600000000, 2140000000)])
+    return float(base - base % 60) + rng.choice(SECOND_OFFSETS)
 
 
 def breeze_call(rng, irset=None, **force):
@@ -248,11 +256,11 @@ class C02(ClientProp):
         out = []
         zones = ZONES_QUICK if ctx.quick else ZONES_ALL
         for zi, z in enumerate(zones):
-            t0 = float(local_instant(z, 2026, [3, 10, 11, 4][zi % 4], [27, 25, 1, 5][zi % 4], 11, 30)) + 0.25
+            t0 = float(local_instant(z, 2026, [3, 10, 11, 4][zi % 4], [27, 25, 1, 5][zi % 4], 11, 30)) + SECOND_OFFSETS[(zi * 3 + 1) % len(SECOND_OFFSETS)]
             ops = grid_type1_ops(ctx, rng, z, int(t0)) if zi == 0 or not ctx.quick else \
                 [op1(rng, "create_schedule", sched_args(rng, z, int(t0), ["ok", "list", "dup", "badclock"][k % 4])) for k in range(40)]
-            for ch in chunks(ops, 25):
-                out.append(one(rng, 1, ch, zone=z, t0=t0))
+            for ci, ch in enumerate(chunks(ops, 25)):
+                out.append(one(rng, 1, ch, zone=z, t0=t0 - t0 % 60 + SECOND_OFFSETS[ci % len(SECOND_OFFSETS)]))
         for ch in chunks(grid_type2_ops(ctx, rng), 25):
             out.append(one(rng, 2, ch))
         return out
@@ -468,6 +476,16 @@ class C09(ClientProp):
                 ops.append({"op": name, "a": {}, "replies": [login(rng), v]})
             for ch in chunks(ops, 1):      # one call per connection: end-of-stream persists on a connection
                 out.append(one(rng, api, ch))
+        # histories on one connection: a good answer, then the SAME unparsable answer twice, then a good one again
+        for api, name, mk in ((1, "get_state", state1), (2, "get_breeze_state", thermo), (2, "get_shutter_state", shutter)):
+            for _ in range(ctx.pick(12, 200)):
+                good = mk(rng)
+                bad = rng.choice([{"t": "prefix", "of": mk(rng), "n": rng.choice([1, 30, 60, 74, 75, 76, 77, 79, 80, 90])},
+                                  {"t": "garbage", "seed": rng.randrange(1 << 30), "n": rng.choice([1, 40, 100, 107, 109, 200])},
+                                  {"t": "raw", "b": [0] * rng.choice([1, 50, 107])}])
+                seq = [good, bad, bad, dict(bad), mk(rng), bad]
+                ops = [{"op": name, "a": {}, "replies": [login(rng), r]} for r in seq]
+                out.append(one(rng, api, ops))
         # generic operations: success iff the reply came; empty login
         gen1 = [("control_device", {"on": 1, "minutes": 5}), ("set_auto_shutdown", {"secs": 3600}), ("set_device_name", {"cps": [97, 98, 99]}),
                 ("delete_schedule", {"slot": 2}), ("get_schedules", {"zone": [[0, 0]]}),
@@ -525,7 +543,7 @@ class C10(ClientProp):
                                 "replies": [login(rng), {"t": "sched", "seed": rng.randrange(1 << 30), "recs": recs}]})
                 ops.append({"op": "get_schedules", "a": {"zone": rules}, "replies": [login(rng), {"t": "eof"}]})
                 for ch in chunks(ops, 30):
-                    out.append(one(rng, 1, ch, zone=z, t0=float(now) + 0.5))
+                    out.append(one(rng, 1, ch, zone=z, t0=float(now) + rng.choice(SECOND_OFFSETS)))
                 # round trips; the listing happens `later` seconds after the creation
                 for _ in range(ctx.pick(12, 150)):
                     ops = []
@@ -538,7 +556,7 @@ class C10(ClientProp):
                         ops.append(op1(rng, "create_schedule", a))
                     ops.append({"op": "get_schedules", "a": {"zone": r2}, "tick": later,
                                 "replies": [login(rng), {"t": "listing", "seed": rng.randrange(1 << 30)}]})
-                    out.append(one(rng, 1, ops, zone=z, t0=float(now) + 0.5))
+                    out.append(one(rng, 1, ops, zone=z, t0=float(now) + rng.choice(SECOND_OFFSETS)))
         return out
 
     def owns(self, clause):
@@ -586,6 +604,14 @@ class C16(ClientProp):
                 if rng.random() < 0.25:
                     faults = {rng.randrange(4)}
                 ops.append(breeze_op(rng, a, faults))
+            # a state query first, then a control call while the device reports something else
+            for _ in range(2):
+                before = thermo(rng, remote=ir["IRSetID"])
+                ops.append({"op": "get_breeze_state", "a": {}, "replies": [login(rng, 44), before]})
+                a = breeze_call(rng, ir)
+                after = thermo(rng, remote=ir["IRSetID"], state=1 - before["state"], target=rng.choice([17, 21, 25, 29]),
+                               fan=(before["fan"] + 1) % 4, swing=1 - before["swing"])
+                ops.append(breeze_op(rng, a, None, after))
             # the same fully specified request twice on one remote object, the device reporting a different power state
             for _ in range(3):
                 req = {"irset": ir, "state": rng.randrange(2), "mode": rng.choice([1, 2, 3, 4, 5]), "temp": rng.choice([16, 20, 24, 30]),
